@@ -110,6 +110,28 @@ def replay_place(shape=None):
     return run
 
 
+def replay_untouched(cex):
+    """installed library: simulate / simulate_2d at scale 1.0 and at another scale leave the molecules' positions as they were, and a second simulation gives the same tomogram"""
+    from acryo import TomogramSimulator, Molecules
+
+    bad = {}
+    rng = np.random.default_rng(5)
+    tmpl = rng.normal(size=(5, 5, 5)).astype(np.float32)
+    for scale in (1.0, 0.5):
+        pos0 = np.array([[8.0, 9.0, 10.0], [12.0, 7.0, 9.0]]) * scale
+        mol = Molecules(pos0.copy())
+        sim = TomogramSimulator(order=1, scale=scale)
+        sim.add_molecules(mol, tmpl)
+        first = sim.simulate((22, 22, 22))
+        d1 = float(np.abs(mol.pos - pos0).max())
+        second = sim.simulate((22, 22, 22))
+        sim.simulate_2d((22, 22))
+        d2 = float(np.abs(mol.pos - pos0).max())
+        if d1 > 1e-6 or d2 > 1e-6 or float(np.abs(first - second).max()) > 1e-6:
+            bad[f"scale={scale}"] = {"positions_moved_by": max(d1, d2), "second_simulation_differs_by": float(np.abs(first - second).max())}
+    return len(bad) > 0, {"problems": bad}
+
+
 def replay_2d():
     def run(cex):
         from acryo import TomogramSimulator, Molecules
@@ -349,9 +371,12 @@ def sec_fragments(rec, two_d=False, patches=None):
     def run():
         del calls[:]
         sim = S.TomogramSimulator(order=1, scale=scale)
-        sim.add_molecules(MC.Molecules(to_symarray(P[:2]), rotation.SymRotation([list(rotation.R30[9]), list(rotation.R30[10])])), tmpl[0], name="A")
-        sim.add_molecules(MC.Molecules(to_symarray(P[2:]), rotation.SymRotation([list(rotation.R30[12])])), tmpl[1], name="B")
+        mA = MC.Molecules(to_symarray(P[:2]), rotation.SymRotation([list(rotation.R30[9]), list(rotation.R30[10])]))
+        mB = MC.Molecules(to_symarray(P[2:]), rotation.SymRotation([list(rotation.R30[12])]))
+        sim.add_molecules(mA, tmpl[0], name="A")
+        sim.add_molecules(mB, tmpl[1], name="B")
         out = sim.simulate_2d(vol[1:]) if two_d else sim.simulate(vol)
+        out.molecule_positions_afterwards = [_obj(to_symarray(mA.pos)).copy(), _obj(to_symarray(mB.pos)).copy()]
         return out, list(calls)
 
     # np.ndarray isinstance check in add_molecules
@@ -364,6 +389,10 @@ def sec_fragments(rec, two_d=False, patches=None):
             continue
         canvas, cl = p.result
         h = hyps + [p.condition()]
+        # simulating reads the molecules: the caller's positions are the same afterwards (a second simulation, or loading at the molecules, must see them)
+        after = canvas.molecule_positions_afterwards
+        same = z3.And(*[zr(after[0][i, a]) == P[i][a].e for i in range(2) for a in range(3)], *[zr(after[1][0, a]) == P[2][a].e for a in range(3)])
+        rec.query(f"{tag}/path{pi}/molecule-positions-not-modified-by-the-simulation", h, same, key=f"C14/{tag}/molecules-modified", replay=replay_untouched, nonlinear=True)
         n_p = len(canvas.pasted)
         okn = n_p == 3
         okr, det = (True, {}) if okn else rp({})
@@ -533,7 +562,9 @@ def sec_history(rec, patches=None):
             for name, calls, sc, od in [("first", p.result[0], s1, o1), ("after-replace", p.result[1], s2, o2), ("original-again", p.result[2], s1, o1)] + [
                     (d[0], d[1], d[2], d[3]) for d in p.result[3]]:
                 okn = len(calls) == 1
-                rec.fact(f"{tag}/path{pi}/{name}/one-fragment", okn, key="C14/history/fragment-count", detail={"n": len(calls)}, reproduced=True if okn else replay_history({})[0])
+                # no resampling call at all for a fixed identity placement: whether what is pasted is still the template is decided on the installed library
+                # (history replay, then exact paste / load-back at a grid-coincident pose with the default spline order)
+                rec.fact(f"{tag}/path{pi}/{name}/one-fragment", okn, key="C14/history/fragment-count", detail={"n": len(calls)}, reproduced=True if okn else (replay_history({})[0] or replay_place()({})[0]))
                 if not okn:
                     continue
                 t, order_used = calls[0]
@@ -628,7 +659,7 @@ def run(tier, procs=None, only=None):
 
 
 # every real-library oracle of this property (each returns (reproduced, detail)); used to confirm structural facts that carry no replay of their own
-ALL_REPLAYS = [lambda c: replay_place()(c), lambda c: replay_2d()(c), lambda c: replay_clip()(c), replay_history]
+ALL_REPLAYS = [lambda c: replay_place()(c), lambda c: replay_2d()(c), lambda c: replay_clip()(c), replay_history, replay_untouched]
 
 
 def replay(data):
